@@ -16,9 +16,10 @@ gen/run:  findwalks, mean_first_passage_time, diffusion_efficiency, pagerank_cen
 validate: spec/Trace_RandomWalk.tla judges every record (one record per real call).
 
 Python only calls bctpy and encodes numbers (integers exactly, reals as round(x*10^6)).
-EXACT: findwalks; MFPT where the spec can solve the equation by Cramer (n<=7).
-RESIDUAL / BOUND checks only: PageRank, eigenvector centrality, subgraph centrality (series
-with remainder bound), diffusion efficiency (inverse of the observed MFPT).
+EXACT: findwalks; MFPT (n<=7) and PageRank (n<=5) where the spec can solve the defining
+equation by Cramer within 32 bits.
+RESIDUAL / BOUND checks only: PageRank beyond that, eigenvector centrality, subgraph centrality
+(series with remainder bound), diffusion efficiency (inverse of the observed MFPT).
 """
 import random
 
@@ -279,8 +280,11 @@ def what(job, rec, clause):
 
 def run(ctx):
     tag = "" if ctx.quick else "_thorough"
-    ctx.parallel([lambda: ctx.mc("MC_RandomWalk.tla", "MC_RandomWalk_walk%s.cfg" % tag, workers=8),
-                  lambda: ctx.mc("MC_RandomWalk.tla", "MC_RandomWalk_lemma%s.cfg" % tag, workers=8)], width=2)
+    models = [lambda: ctx.mc("MC_RandomWalk.tla", "MC_RandomWalk_walk%s.cfg" % tag, workers=8),
+              lambda: ctx.mc("MC_RandomWalk.tla", "MC_RandomWalk_lemma%s.cfg" % tag, workers=8)]
+    if not ctx.quick:        # termination of the findwalks loop as a liveness property (small domain)
+        models.append(lambda: ctx.mc("MC_RandomWalk.tla", "MC_RandomWalk_live.cfg", workers=4))
+    ctx.parallel(models, width=3)
     jobs = build_jobs(ctx)
     recs = pool.run_jobs(__name__, jobs)
     verdicts = ctx.validate(TLA, CFG, recs)
@@ -295,6 +299,9 @@ def run(ctx):
     ctx.nontrivial = len(seen)
     ctx.exhaustive = True
     ctx.extra["judged_per_kind"] = per
+    ctx.extra["judged_exact"] = {k: sum(1 for r, v in zip(recs, verdicts)
+                                        if r.get("kind") == k and v[0] == "ok" and v[1] == "same")
+                                 for k in ("findwalks", "mfpt", "pagerank")}
     ctx.rule = ("findwalks: every 0/1 digraph on 2..3 nodes (+ self-loop variants), %s digraphs on 4 nodes, every "
                 "graph on 4 nodes, graphs on 5 nodes, random n<=7.  Random-walk measures (MFPT, diffusion "
                 "efficiency, PageRank d in {1/2, 17/20}, some with a non-uniform falff): every connected graph on "
@@ -316,8 +323,9 @@ def run(ctx):
     ctx.add_sample("random-input", dict(job=jobs[-1], record=recs[-1]), limit=8)
     ctx.extra["explanation"] = (
         "TLC is the judge of every record.  EXACT: findwalks (integer matrix powers = behaviour counts of the "
-        "walker machine); mean_first_passage_time for n<=7 (compared with the Cramer solution of the defining "
-        "equation, 2e-6).  RESIDUAL checks on the 1e-6 fixed-point image with spec-derived rounding budgets: MFPT "
+        "walker machine); mean_first_passage_time for n<=7 and pagerank_centrality for n<=5 where the integer "
+        "determinants fit 32 bits (compared with the Cramer solution of the defining equation, 2e-6; counted in "
+        "judged_exact).  RESIDUAL checks on the 1e-6 fixed-point image with spec-derived rounding budgets: MFPT "
         "equation (any n), PageRank equation (scale 1e-6..1e-3 chosen by the spec so that 32-bit products fit), "
         "diffusion efficiency (inverse of the MFPT the code itself returns, 3e-6; mean, exact up to rounding).  "
         "BOUND checks: eigenvector centrality (parallelism by cross products at 1e-4, eigenvalue inside "
